@@ -43,7 +43,7 @@ def model_checks(ctx):
            ("Balancer_skip.cfg", "invariant:InOrderNoLoss", "skip after a write error loses an accepted packet"),
            ("Balancer_reportloss.cfg", "invariant:NoReportLost", "failed report write loses the amount")]
     demo = {}
-    for cfg, want, name in neg:
+    for cfg, want, name in (neg if th else neg[:1] + neg[2:3]):
         res = ctx.tlc("BalancerMC", cfg, timeout=900, name="expected counterexample: " + name, expect_violation=True)
         if res.violated != want:
             raise Infra("specification lost its teeth: %s should give %s, got %s" % (cfg, want, res.violated))
@@ -94,7 +94,10 @@ def scenario_at(path, line):
 
 def run(ctx):
     th = ctx.thorough
-    model_checks(ctx)
+    if os.environ.get("VERIF_SELFTEST") == "1":
+        ctx.log("selftest of a code mutation: the model-checking stage does not depend on the code, skipped")
+    else:
+        model_checks(ctx)
 
     # ---- S->I: the would-block report
     rep, out, rc = ctx.go_test("internal/balancer", "TestVerifC31Report", env={"VERIF_NREPORT": 2000 if th else 300}, timeout=600)
@@ -107,7 +110,7 @@ def run(ctx):
     nbeh = 60 if th else 10
     behs = behaviours(ctx, nbeh)
     env = {"VERIF_NSCN": 130 if th else 20, "VERIF_NLSTALL": 3 if th else 1, "VERIF_NNEWEGRESS": 2 if th else 1,
-           "VERIF_PAR": 8 if th else 6, "VERIF_NFILES": 8 if th else 4}
+           "VERIF_PAR": 8 if th else 6, "VERIF_NFILES": 8 if th else 3}
     res, out, rc = ctx.go_test("internal/balancer", "TestVerifC31", inp=behs, env=env, timeout=1500 if th else 600)
     res = ctx.need_result(res, out, rc, "TestVerifC31")
     consts = res.get("consts", {})
@@ -117,9 +120,9 @@ def run(ctx):
     total = env["VERIF_NSCN"] + env["VERIF_NLSTALL"] + env["VERIF_NNEWEGRESS"] + len(behs)
     ninfra = res.get("counters", {}).get("infra", 0)
     if ninfra:
-        ctx.log("scenarios without a usable trace: %d of %d: %s" % (ninfra, total, res.get("notes", [])[:5]))
+        ctx.log("scenarios without a usable trace: %d of %d: %s" % (ninfra, total, (res.get("notes") or [])[:5]))
     if res["replayed"] < 0.8 * total:
-        raise Infra("only %d of %d scenarios produced a trace: %s" % (res["replayed"], total, res.get("notes", [])[:8]))
+        raise Infra("only %d of %d scenarios produced a trace: %s" % (res["replayed"], total, (res.get("notes") or [])[:8]))
     files = res["files"]
     with ThreadPoolExecutor(max_workers=4) as ex:
         tvs = list(ex.map(lambda a: validate(ctx, a[1], a[0]), enumerate(files)))
@@ -165,7 +168,7 @@ def run(ctx):
         ctx.ev.sample(s)
     for s in (rep.get("samples") or [])[:1]:
         ctx.ev.sample(s)
-    ctx.ev.sample({"late_quiesces": res.get("counters", {}).get("quiesce_late", 0), "notes": res.get("notes", [])[:4]})
+    ctx.ev.sample({"late_quiesces": res.get("counters", {}).get("quiesce_late", 0), "notes": (res.get("notes") or [])[:4]})
     ctx.ev.assume("'healthy upstream' = the listener reads and the driver's gate before the write is open; the delay ceiling "
                   "is 5 s of responsive time (a poll step delayed by machine load counts 20 ms at most), against swapWaitMax = 1 s")
     ctx.ev.assume("'written upstream' = accepted by the kernel for that connection: for a connection the listener reset, the "
